@@ -855,3 +855,33 @@ def repetitive(seed, index):
         L += run() + [f"{lab}:"]
     L += run() + ["int 1", "return", "sub:"] + run() + ["retsub"]
     return "\n".join(L) + "\n"
+
+
+EDGEROLE_SHAPES = ["back-branch", "back-branch-call", "branch-last", "branch-last-in-sub", "dispatch-then-branch"]
+
+
+def edgeroles(seed, index):
+    """systematic family of layouts in which WHICH successor of a `bz` / `bnz` is the fall-through and which the jump matters and is
+    unusual: the branch on a governed comparison jumps BACKWARDS (so the jump target has the smaller block id), or is the LAST
+    instruction of the program / of a subroutine (a single successor: the jump edge), the approving `return` sitting before it;
+    or sits behind a dispatcher (so that a function cut out along the dispatch path replaces one of its successors)"""
+    r = random.Random(f"edgeroles/{seed}/{index}")
+    cond, tag = BRANCHCALL_CONDS[index % len(BRANCHCALL_CONDS)]
+    k = index // len(BRANCHCALL_CONDS)
+    br = ("bz", "bnz")[k % 2]; k //= 2
+    shape = EDGEROLE_SHAPES[k % len(EDGEROLE_SHAPES)]
+    noise = r.choice([[], ["int 5", "pop"], ["load 1", "pop"]])
+    L = ["#pragma version 8"]
+    if shape == "back-branch":
+        L += noise + ["again:"] + r.choice([[], ["int 3", "pop"]]) + cond + [f"{br} again"] + r.choice([[], ["txn Fee", "int 3000", "<", "assert"]]) + ["int 1", "return"]
+    elif shape == "back-branch-call":
+        L += ["again:", "callsub work"] + cond + [f"{br} again", "int 1", "return", "work:", "int 7", "pop", "retsub"]
+    elif shape == "branch-last":
+        L += ["b main", "accept:"] + noise + ["int 1", "return", "main:"] + cond + [f"{br} accept"]
+    elif shape == "branch-last-in-sub":
+        L += ["callsub chk", "int 1", "return", "fine:", "retsub", "chk:"] + cond + [f"{br} fine"]
+    else:
+        L += ["txn NumAppArgs", "int 1", "==", "bnz handler", "int 1", "return", "handler:"] + cond + [f"{br} other", "int 1", "return", "other:"] + noise + ["int 1", "return"]
+    return "\n".join(L) + "\n", ([tag] if tag else [])
+
+N_EDGEROLES = len(BRANCHCALL_CONDS) * 2 * len(EDGEROLE_SHAPES)
